@@ -10,7 +10,7 @@ exec > >(tee "$LOG") 2>&1
 set -u
 git -C /repo worktree remove --force $WT 2>/dev/null; rm -rf $WT $VB
 git -C /repo worktree add --detach $WT HEAD > /dev/null || exit 2
-git -C $WT apply "$SEED/patch.diff" || { echo "RESULT patch-does-not-apply"; git -C /repo worktree remove --force $WT; exit 2; }
+git -C $WT apply "$SEED/patch.diff" 2>/dev/null || git -C $WT apply -C1 "$SEED/patch.diff" 2>/dev/null || git -C $WT apply --3way "$SEED/patch.diff" || { echo "RESULT patch-does-not-apply"; git -C /repo worktree remove --force $WT; exit 2; }
 echo "== build with tests"
 cmake -S $WT -B $WT/_build -G Ninja -DCMAKE_BUILD_TYPE=RelWithDebInfo -DBUILD_TESTING=ON -DCMAKE_POLICY_VERSION_MINIMUM=3.5 -DCMAKE_CXX_FLAGS=-Wno-error -DCMAKE_C_FLAGS=-Wno-error > $WT/conf.log 2>&1 \
   && cmake --build $WT/_build -j"$(nproc)" > $WT/build.log 2>&1 || { echo "RESULT compile=FAIL"; tail -5 $WT/build.log; git -C /repo worktree remove --force $WT; exit 1; }
